@@ -58,6 +58,18 @@ InSupport(k, p, x) ==
     [] k = "Binomial"    -> IsInt(x) /\ RLe(RZ, x) /\ RLe(x, P(k, p, 1))
     [] k = "Bernoulli"   -> x \in {RZ, ROne}
 
+\* support as an interval: [lo, hi] with "ninf"/"pinf" for unbounded ends and open flags (strict inequality)
+SupportBounds(k, p) ==
+  CASE k \in {"Normal", "T", "Gumbel"} -> [lo |-> "ninf", hi |-> "pinf", lo_open |-> TRUE, hi_open |-> TRUE]
+    [] k \in {"Gamma", "ChiSquared"} -> [lo |-> RJ(RZ), hi |-> "pinf", lo_open |-> TRUE, hi_open |-> TRUE]
+    [] k = "Exponential" -> [lo |-> RJ(RZ), hi |-> "pinf", lo_open |-> FALSE, hi_open |-> TRUE]
+    [] k = "Beta"    -> [lo |-> RJ(RZ), hi |-> RJ(ROne), lo_open |-> FALSE, hi_open |-> FALSE]
+    [] k = "Pareto"  -> [lo |-> RJ(P(k, p, 2)), hi |-> "pinf", lo_open |-> FALSE, hi_open |-> TRUE]
+    [] k \in {"Uniform", "DiscreteUniform"} -> [lo |-> RJ(P(k, p, 1)), hi |-> RJ(P(k, p, 2)), lo_open |-> FALSE, hi_open |-> FALSE]
+    [] k = "Poisson" -> [lo |-> RJ(RZ), hi |-> "pinf", lo_open |-> FALSE, hi_open |-> TRUE]
+    [] k = "Binomial" -> [lo |-> RJ(RZ), hi |-> RJ(P(k, p, 1)), lo_open |-> FALSE, hi_open |-> FALSE]
+    [] k = "Bernoulli" -> [lo |-> RJ(RZ), hi |-> RJ(ROne), lo_open |-> FALSE, hi_open |-> FALSE]
+
 \* end points of the support of a density: a single point carries no mass, the value there is a convention and
 \* is not judged (only finiteness and non-negativity)
 OnBoundary(k, p, x) ==
